@@ -23,7 +23,8 @@ STRING_POOL = ["x", "abc", "a b", "two  spaces", " lead", "trail ", "", "it's", 
                "é", "☃ snow", "mixed é☃\\t", "comma, colon: eq= hash# (paren) [brack]", "#notcomment", "007", "1.5", "True", "-5", "a:b", "http://x.y:80/z",
                "/abs/path/file.txt", "rel/path.csv", "%percent", "x.y", "a-b", "\\1", "D:\\surveys\\2019\\07\\p.csv", "end\\", "q'", '"', "'", "\r", "a\r\nb",
                "\x41\u00e9", "very long " * 5, "1e5", "1e-05", "\\u2603", "\\N", "nul\\0",
-               "\U0001F600 grin", "\U00020BB7野家", "math \U0001D49C", "\uffff edge \U00010000", "50\\% cover", "\\\\server\\share\\x", "C:\\path\\data\\sites.gdb"]
+               "\U0001F600 grin", "\U00020BB7野家", "math \U0001D49C", "\uffff edge \U00010000", "50\\% cover", "\\\\server\\share\\x", "C:\\path\\data\\sites.gdb",
+               "vt\x0bff\x0cfs\x1cgs\x1drs\x1e", "nel\x85ls\u2028ps\u2029end"]
 
 
 def is_ident(s):
